@@ -461,6 +461,23 @@ class SFixed(Template[_FixedTemplateArg], AssignableType):
                             else Signed[2](0)
                         )
 
+                    if overflow_style is FixedOverflowStyle.SATURATE and selfleft == left:
+                        # rounding up the largest value carries out of the target range
+                        wide = (
+                            self._val.msb(rest=cutoff).signed.resize(Result._width + 1)
+                            + do_round
+                        )
+                        carry = not wide[Result._width] and wide[Result._width - 1]
+
+                        return Result(
+                            raw=Value[Signed[Result._width]](
+                                choose_first(
+                                    (carry, Signed[Result._width].max()),
+                                    default=wide.lsb(Result._width).signed,
+                                )
+                            )
+                        )
+
                     return Result(
                         raw=Value[Signed[Result._width]](
                             self._val.msb(rest=cutoff).signed.resize(Result._width)
@@ -796,6 +813,24 @@ class UFixed(Template[_FixedTemplateArg], AssignableType):
                             if self._val[cutoff - 1]
                             and (self._val[cutoff] or self._val[cutoff - 2 : 0])
                             else Unsigned[1](0)
+                        )
+
+                    if overflow_style is FixedOverflowStyle.SATURATE and selfleft == left:
+                        # rounding up the largest value carries out of the target range
+                        wide = (
+                            self._val.msb(rest=cutoff).unsigned.resize(
+                                Result._width + 1
+                            )
+                            + do_round
+                        )
+
+                        return Result(
+                            raw=Value[Unsigned[Result._width]](
+                                choose_first(
+                                    (wide[Result._width], Unsigned[Result._width].max()),
+                                    default=wide.lsb(Result._width).unsigned,
+                                )
+                            )
                         )
 
                     return Result(
